@@ -48,6 +48,17 @@ CLAIMED = {
             "different units included): comparisons, and + - / under catch_unwind; the documented panic must occur exactly "
             "when units differ.",
             TRUST_E1, "5.10"),
+    "C04": (E1, "bounded exhaustive exploration (depth 2: operator then inverse operator) of all derived operator instances on the real code against an exact-rational reference model",
+            "All 56 operator instances (34 catalogue, 4 astronomical, 18 synthetic) x all operand unit pairs x alphabet "
+            "amount pairs x the four ownership forms; magnitude judged in exact rational arithmetic with a derived "
+            "rounding bound; every result is fed to the inverse operator instance and must return the original magnitude.",
+            TRUST_E1 + " Decimal cases are restricted to the magnitude precondition of C18 as read in DESIGN.md 5.18.", "5.4"),
+    "C05": (E1, "bounded exhaustive exploration with a boundary alphabet computed from the unit-scale tables; oracle = independent transcription of the selection rule",
+            "All operator instances x all operand unit pairs x operand amounts constructed so that the result magnitude "
+            "sweeps across, exactly onto (with representable neighbours) and beside every unit scale of the result type, "
+            "plus zero/negative/out-of-range magnitudes; the expected unit is computed from the statement, not from the "
+            "selection code, with the exact magnitude deciding the side of each boundary.",
+            TRUST_E1, "5.5"),
     "C07": (E1, "exhaustive enumeration of the finite unit catalogue against an independently written definition table chained with exact rationals",
             "The domain is finite and is enumerated completely: every unit of every predefined and synthetic quantity in "
             "both back-ends, every accessor, every pair of SI-prefixed units.",
